@@ -223,14 +223,24 @@ def embed_wide(gd, rng, total, p_di=None, p_bi=None):
 
 def to_nx(gd, mode=None):
     """Build the real y0 NxMixedGraph, honouring the insertion order of the description.  The construction path is a
-    workload dimension: the add_* mutators, from_edges, from_str_edges, from_adj and from_str_adj (chosen by a
+    workload dimension: the add_* mutators, from_edges, from_str_edges (with a full or a partial nodes= list), from_adj and from_str_adj (chosen by a
     hash-seed independent checksum of the description unless ``mode`` is given)."""
     from y0.dsl import Variable
     from y0.graph import NxMixedGraph
 
     if mode is None:
-        mode = sum(map(ord, "".join(gd["nodes"]) + "".join(a + b for a, b in gd["di"] + gd["bi"]))) % 7
+        mode = sum(map(ord, "".join(gd["nodes"]) + "".join(a + b for a, b in gd["di"] + gd["bi"]))) % 9
     V = node
+    if mode in (7, 8):
+        # from_edges / from_str_edges with a PARTIAL ``nodes=`` list: the nodes without any edge (they must be named)
+        # and every other node of the description (named or not, the edges bring the rest)
+        touched = {x for e in gd["di"] + gd["bi"] for x in e}
+        part = [n for i, n in enumerate(gd["nodes"]) if n not in touched or i % 2 == 0]
+        if mode == 8 and not any("@" in n for n in gd["nodes"]):
+            return NxMixedGraph.from_str_edges(nodes=part, directed=[tuple(e) for e in gd["di"]],
+                                               undirected=[tuple(e) for e in gd["bi"]])
+        return NxMixedGraph.from_edges(nodes=[V(n) for n in part], directed=[(V(u), V(v)) for u, v in gd["di"]],
+                                       undirected=[(V(u), V(v)) for u, v in gd["bi"]])
     if mode in (4, 6) and any("@" in n for n in gd["nodes"]):
         mode = 3  # the from_str_* constructors cannot name a counterfactual variable
     if mode == 3:
